@@ -16,6 +16,7 @@ type ChildRule struct {
 
 // CompositeCfg describes one CompositeController object.
 type CompositeCfg struct {
+	PlainOwnerHook   bool // scenario fact, not part of the object: the hook's children carry a plain ownerReference to the parent
 	Name             string
 	Parent           *Resource
 	Children         []ChildRule
@@ -150,6 +151,8 @@ type TemplateProgram struct {
 	ResyncAfter  float64
 	Teardown     bool // finalize: drop one observed child per call instead of all at once
 	WithStatus   bool // desired children carry a status stanza (which metacontroller must ignore)
+	EmptyNS      bool // namespaced parent: children carry metadata.namespace "" (present but empty) instead of omitting it
+	PlainOwner   bool // children carry a plain (non-controller) ownerReference to the parent, as a hook copying references would
 	FinalizeHold bool // finalize: while spec.template.hold is true keep the children and answer finalized:false;
 	// otherwise keep the children and answer finalized:true at once (legal: leftovers go to the GC)
 }
@@ -185,9 +188,16 @@ func (tp *TemplateProgram) desiredChild(parent Object, r *Resource, name, ns str
 	md := Object{"name": name}
 	if ns != "" {
 		md["namespace"] = ns
+	} else if tp.EmptyNS && r.Namespaced && mstr(parent, "namespace") != "" {
+		md["namespace"] = ""
+	}
+	if tp.PlainOwner && mstr(parent, "uid") != "" {
+		md["ownerReferences"] = []interface{}{Object{"apiVersion": parent["apiVersion"], "kind": parent["kind"], "name": mstr(parent, "name"), "uid": mstr(parent, "uid")}}
 	}
 	if tp.BadLabel {
-		md["labels"] = Object{"app": "not-" + mstr(parent, "name")}
+		// labels that do not satisfy the parent's selector (with a generated selector:
+		// the controller-uid of somebody else)
+		md["labels"] = Object{"app": "not-" + mstr(parent, "name"), "controller-uid": "uid-of-someone-else"}
 	} else if !tp.NoLabels {
 		lbl := Object{}
 		for k, v := range getMap(spec, "selector", "matchLabels") {
